@@ -29,7 +29,7 @@ RULE = ("cases = list of <=25 calls; valid ones from the state-tracked API "
         "tool_change with bad number or under an interlock, waiting halt with "
         "temperature outside bounds/non-finite or with the tool on, setters "
         "with invalid values, probe with valid target and bad F, absolute-"
-        "bypass moves in relative mode); non-trivial = a raising call issued "
+        "bypass moves in relative mode, immediate retries of the same call); non-trivial = a raising call issued "
         "from a non-initial state whose failing check is not the first one the "
         "command performs (kinds tagged 'late'); distinct by SHA-1")
 ASSUMPTIONS = [
@@ -105,8 +105,8 @@ def diff(s0, s1):
 # poisoned calls
 # ---------------------------------------------------------------------------
 
-BAD_F = [-1.0, -5e-324, NAN, INF, -INF, 1e9]      # 1e9 is outside any feed bound we set
-BAD_S = [-0.5, NAN, INF, -INF, 1e9]
+BAD_F = [-1.0, -5e-324, NAN, INF, -INF, 1e9, 0.0]  # 1e9 is outside any feed bound we set; 0 outside
+BAD_S = [-0.5, NAN, INF, -INF, 1e9, 0.0]           # the bounds that exclude zero (10..5000 / 10..1000)
 BAD_COORD = [NAN, INF, -INF]
 FAR = [1e7, -1e7]                                  # outside every axes box we set
 
@@ -227,7 +227,8 @@ def strategy(n):
     from hypothesis import strategies as st
     valid = sh.call_strategy()
     inter = sh.call_strategy(moves=False, extras=False)
-    item = st.one_of(valid, inter, inter, poison_strategy(), poison_strategy(), setup_strategy().filter(bool).map(lambda l: l[0]))
+    rep = st.just({"op": "repeat"})
+    item = st.one_of(valid, inter, inter, rep, poison_strategy(), poison_strategy(), setup_strategy().filter(bool).map(lambda l: l[0]))
     return st.fixed_dictionaries({
         "setup": setup_strategy(),
         "calls": st.lists(item, min_size=1, max_size=n)})
@@ -249,7 +250,16 @@ def run_case(case, cl=None):
             continue            # e.g. a second tool start: skipped for both
         apply_call(shadow.g, call)
         ok_calls += 1
+    prev_call = None
     for i, call in enumerate(case["calls"]):
+        if call.get("op") == "repeat":
+            # the very same call again (an immediate retry of a rejected
+            # command must be rejected again, and must still change nothing)
+            if prev_call is None:
+                continue
+            call = prev_call
+            cl.add("call_repeated")
+        prev_call = call
         real = strip(call)
         kind = call.get("_poison")
         if real["op"] == "emergency_halt":
@@ -262,7 +272,12 @@ def run_case(case, cl=None):
         except Exception as e:
             exc = e
         if exc is None:
-            apply_call(shadow.g, real)
+            try:
+                apply_call(shadow.g, real)
+            except Exception as e2:
+                raise Violation(f"call #{i} {real!r} was accepted, but a builder that never saw "
+                                f"the earlier rejected calls rejects it with "
+                                f"{type(e2).__name__}: {e2} (a rejected call changed later behaviour)")
             ok_calls += 1
             if kind:
                 cl.add("accepted:" + kind)
